@@ -503,6 +503,18 @@ def rule_e(ctx: Ctx) -> None:
                f.loc(dummy[0].ast) if dummy else f.loc(), ok,
                '' if ok else 'this driver treats an undeclared element with xsi:type differently from its siblings: the entry points disagree '
                'on the verdict for such a document', key=f'{meth}|undeclared-xsi-type')
+    # the two whole-document drivers resolve the schema of the root namespace the same way: unknown namespace -> the schema itself
+    for meth in ('iter_errors', 'iter_decode'):
+        f = ctx.idx.func(f'{SCHEMA}.{meth}')
+        g = cfg_of(ctx, f)
+        gs_calls = call_nodes(g, lambda c: text(c.func) == 'self.get_schema')
+        ok = bool(gs_calls)
+        for n, c in gs_calls:
+            hs = [m for m, lab in g.succ[n] if lab == 'i' and m.kind == 'handler']
+            ok = ok and any('KeyError' in text(h.ast.type) and any(text(s_) == 'schema = self' for s_ in h.ast.body) for h in hs)
+        ctx.ob(rule, f'{meth}: a root namespace that is not loaded falls back to the schema itself (then reported as a missing element), in both drivers',
+               f.loc(gs_calls[0][1]) if gs_calls else f.loc(), ok, '' if ok else 'XMLSchemaKeyError of get_schema() escapes: this driver raises where its '
+               'sibling reports a validation error', key=f'{meth}|namespace-fallback')
     ctx.explain('C04.e: the undeclared-element branch (xsi:type -> dummy declaration, otherwise missing-element error) has the same '
                 'path condition in iter_errors, iter_decode and raw_decoder.')
 
